@@ -2,6 +2,7 @@ import CanvasModel.C09
 import CanvasModel.C10
 import CanvasModel.Region
 import CanvasGen.CoreF
+import CanvasGen.BezierF
 import CanvasGen.GaussLegendreC09
 /-!
 # C09 — `Float` instance and line protocol of the Reverse / Split / ellipseSplit / Gauss–Legendre models
@@ -11,6 +12,8 @@ import CanvasGen.GaussLegendreC09
   ESPLIT theta0 theta1 theta            -> `ok large0 large1` of `ellipseSplit`
   GL n k a b                            -> gaussLegendre<n>(x ↦ x^k, a, b) from the extracted table
   REVWN delta P <poly> R <poly> PTS …   -> verdict: wn(R, q) = −wn(P, q) for every q off the δ-band (exact)
+  QCUTS p0 p1 p2 t1 … tn                -> the n+1 pieces of the quadratic cutting loop (`cutsGen`) as data arrays
+  CCUTS p0 p1 p2 p3 t1 … tn             -> the same for a cubic
 
 records: `M x y`, `L x y`, `Q cx cy x y`, `C c1x c1y c2x c2y x y`, `A rx ry phi large sweep x y`, `Z x y`
 (hex float64; the raw values of the data array, phi in radians).
@@ -82,7 +85,42 @@ def checkRevWn (s : Region.Scene) : String := Id.run do
     idx := idx + 1
   return s!"ok checked={checked} skipped={skipped}"
 
+abbrev QuadF := Pt Float × Pt Float × Pt Float
+abbrev CubicF := Pt Float × Pt Float × Pt Float × Pt Float
+
+/-- the quadratic cutting loop on `Float` with the generated `quadraticBezierSplit` -/
+def quadCutsF (r : QuadF) (ts : List Float) : List QuadF × QuadF :=
+  cutsGen (· - ·) (· / ·) 1.0
+    (fun (q : QuadF) t => let s := GenF.quadraticBezierSplit q.1 q.2.1 q.2.2 t; (s.1, s.2.1, s.2.2.1))
+    (fun (q : QuadF) t => let s := GenF.quadraticBezierSplit q.1 q.2.1 q.2.2 t; (s.2.2.2.1, s.2.2.2.2.1, s.2.2.2.2.2))
+    r 0.0 ts
+
+def cubeCutsF (r : CubicF) (ts : List Float) : List CubicF × CubicF :=
+  cutsGen (· - ·) (· / ·) 1.0
+    (fun (q : CubicF) t => let s := GenF.cubicBezierSplit q.1 q.2.1 q.2.2.1 q.2.2.2 t; (s.1, s.2.1, s.2.2.1, s.2.2.2.1))
+    (fun (q : CubicF) t =>
+      let s := GenF.cubicBezierSplit q.1 q.2.1 q.2.2.1 q.2.2.2 t
+      (s.2.2.2.2.1, s.2.2.2.2.2.1, s.2.2.2.2.2.2.1, s.2.2.2.2.2.2.2))
+    r 0.0 ts
+
+def joinPieces (ps : List String) : String := " | ".intercalate ps
+
 def handle : List String → Option String
+  | "QCUTS" :: a :: b :: c :: d :: e :: f :: ts => do
+    let p0 ← C10.pt? a b
+    let p1 ← C10.pt? c d
+    let p2 ← C10.pt? e f
+    let ts ← ts.mapM floatOfHex?
+    let (ps, r) := quadCutsF (p0, p1, p2) ts
+    pure (joinPieces ((ps ++ [r]).map fun q => showData [.move q.1, .quad q.2.1 q.2.2]))
+  | "CCUTS" :: a :: b :: c :: d :: e :: f :: g :: h :: ts => do
+    let p0 ← C10.pt? a b
+    let p1 ← C10.pt? c d
+    let p2 ← C10.pt? e f
+    let p3 ← C10.pt? g h
+    let ts ← ts.mapM floatOfHex?
+    let (ps, r) := cubeCutsF (p0, p1, p2, p3) ts
+    pure (joinPieces ((ps ++ [r]).map fun q => showData [.move q.1, .cube q.2.1 q.2.2.1 q.2.2.2]))
   | "REV" :: toks => do
     let cs ← parseCmds toks.length toks
     pure (showData (reverseF ptEqF zeroPt cs.reverse))
